@@ -33,6 +33,9 @@ class Recorder:
             raise AttributeError(k)
         a = self._attrs
         if k not in a:
+            if k in ("get_ylim", "get_xlim"):
+                # the few getters whose value the code computes with return numbers
+                return lambda *args, **kw: (self._log.append((self._name + "." + k, args, kw, None)), (0.0, 7.3) if k == "get_ylim" else (0.1, 50.0))[1]
             a[k] = Recorder(self._name + "." + k, self._log)
         return a[k]
 
@@ -61,6 +64,18 @@ class Recorder:
 
     def __mro_entries__(self, bases):
         return (object,)
+
+
+class AxesRecorder(Recorder):
+    """Recorder standing in for a matplotlib Axes: the few getters whose value the code computes with return numbers."""
+
+    def get_ylim(self):
+        self._log.append((self._name + ".get_ylim", (), {}, None))
+        return (0.0, 7.3)
+
+    def get_xlim(self):
+        self._log.append((self._name + ".get_xlim", (), {}, None))
+        return (0.1, 50.0)
 
 
 def recorder_module(name, log):
